@@ -413,6 +413,8 @@ func generate() {
 
 	// the callers layer: ptt.NewBoard on a .BRD with a vacated slot, .DIR.bottom behind the board cache.
 	generateCallers()
+	// the request layer: names looked up, confirmed, then modified / delete-marked (absent names next to present ones).
+	generateRequests()
 
 	// 4. random histories.
 	nh, maxOps := 600, 28
